@@ -102,7 +102,7 @@ struct Copies<T> {
 
 /// All byte-level checks of C12 on one artefact.
 fn artefact<T: CanonicalSerialize + CanonicalDeserialize>(
-    ctx: &mut Ctx,
+    rep: &mut Report,
     rng: &mut Rng,
     id: &str,
     scheme: &str,
@@ -123,25 +123,25 @@ fn artefact<T: CanonicalSerialize + CanonicalDeserialize>(
         let bytes = match ser_mode(x, *c) {
             Ok(b) => b,
             Err(e) => {
-                ctx.rep.expect_fail(&aid, &sig("serialize-failed"), &format!("serialization of an honest {} failed: {}", what, e), replay(&e, &[]));
-                ctx.rep.case(&format!("{} {} {} serialize failed", scheme, what, cname), None);
+                rep.expect_fail(&aid, &sig("serialize-failed"), &format!("serialization of an honest {} failed: {}", what, e), replay(&e, &[]));
+                rep.case(&format!("{} {} {} serialize failed", scheme, what, cname), None);
                 continue;
             }
         };
         // reported size
         match guarded(|| x.serialized_size(*c)) {
             Ok(n) if n == bytes.len() => {}
-            Ok(n) => ctx.rep.expect_fail(&aid, &sig("size-mismatch"),
+            Ok(n) => rep.expect_fail(&aid, &sig("size-mismatch"),
                 &format!("serialized_size({}) = {} but {} bytes were written", cname, n, bytes.len()),
                 replay(&format!("serialized_size={} written={}", n, bytes.len()), &bytes)),
-            Err(a) => ctx.rep.expect_fail(&aid, &sig("size-aborted"), &format!("serialized_size aborted: {}", a), replay(&a, &bytes)),
+            Err(a) => rep.expect_fail(&aid, &sig("size-aborted"), &format!("serialized_size aborted: {}", a), replay(&a, &bytes)),
         }
         // round trip in both validation modes
         for (v, vname) in VALIDATE.iter() {
             match deser_mode::<T>(&bytes, *c, *v) {
                 Ok((y, left)) => {
                     if left != 0 {
-                        ctx.rep.expect_fail(&aid, &sig("bytes-left-unread"),
+                        rep.expect_fail(&aid, &sig("bytes-left-unread"),
                             &format!("deserialization ({}) left {} of {} bytes unread", vname, left, bytes.len()),
                             replay(&format!("{} left={}", vname, left), &bytes));
                     }
@@ -149,11 +149,11 @@ fn artefact<T: CanonicalSerialize + CanonicalDeserialize>(
                         Ok(b2) if b2 == bytes => {}
                         Ok(b2) => {
                             let at = b2.iter().zip(bytes.iter()).position(|(a, b)| a != b).unwrap_or(b2.len().min(bytes.len()));
-                            ctx.rep.expect_fail(&aid, &sig("reserialization-differs"),
+                            rep.expect_fail(&aid, &sig("reserialization-differs"),
                                 &format!("ser(deser(ser x)) != ser x ({}): lengths {} vs {}, first difference at byte {}", vname, b2.len(), bytes.len(), at),
                                 replay(&format!("{} reserialized[{}]: {}", vname, b2.len(), hex(&b2)), &bytes));
                         }
-                        Err(e) => ctx.rep.expect_fail(&aid, &sig("reserialization-failed"),
+                        Err(e) => rep.expect_fail(&aid, &sig("reserialization-failed"),
                             &format!("deserialized value does not serialize ({}): {}", vname, e), replay(&e, &bytes)),
                     }
                     match (ci, matches!(v, Validate::Yes)) {
@@ -162,7 +162,7 @@ fn artefact<T: CanonicalSerialize + CanonicalDeserialize>(
                         _ => {}
                     }
                 }
-                Err(e) => ctx.rep.expect_fail(&aid, &sig("roundtrip-refused"),
+                Err(e) => rep.expect_fail(&aid, &sig("roundtrip-refused"),
                     &format!("deserialization ({}, {}) of an honest encoding failed: {}", cname, vname, e),
                     replay(&format!("{}: {}", vname, e), &bytes)),
             }
@@ -175,12 +175,12 @@ fn artefact<T: CanonicalSerialize + CanonicalDeserialize>(
                 Ok((y, left)) => {
                     let same = ser_mode(&y, *c).map(|b| b == bytes).unwrap_or(false);
                     if left != 3 || !same {
-                        ctx.rep.expect_fail(&aid, &sig("framing"),
+                        rep.expect_fail(&aid, &sig("framing"),
                             &format!("deserializing enc ‖ rest left {} bytes (expected 3) / same value: {}", left, same),
                             replay("encoding followed by ab cd ef", &bytes));
                     }
                 }
-                Err(e) => ctx.rep.expect_fail(&aid, &sig("framing"),
+                Err(e) => rep.expect_fail(&aid, &sig("framing"),
                     &format!("deserializing enc ‖ rest failed: {}", e), replay("encoding followed by ab cd ef", &bytes)),
             }
         }
@@ -201,14 +201,14 @@ fn artefact<T: CanonicalSerialize + CanonicalDeserialize>(
             }
         }
         if let Some((cut, vname)) = parsed {
-            ctx.rep.expect_fail(&aid, &sig("prefix-parsed"),
+            rep.expect_fail(&aid, &sig("prefix-parsed"),
                 &format!("the first {} of {} bytes deserialize successfully ({}, {})", cut, bytes.len(), cname, vname),
                 replay(&format!("prefix length {} parses ({})", cut, vname), &bytes));
         }
-        ctx.rep.count(&format!("{}/{}", scheme, what.split('#').next().unwrap_or(what)));
-        ctx.rep.count(&format!("prefixes-tried/{}", if all { "all" } else { "sampled" }));
-        ctx.rep.count(&format!("size/{}", match bytes.len() { 0 => "0", 1..=99 => "<100", 100..=999 => "<1k", 1000..=9999 => "<10k", _ => ">=10k" }));
-        ctx.rep.case(
+        rep.count(&format!("{}/{}", scheme, what.split('#').next().unwrap_or(what)));
+        rep.count(&format!("prefixes-tried/{}", if all { "all" } else { "sampled" }));
+        rep.count(&format!("size/{}", match bytes.len() { 0 => "0", 1..=99 => "<100", 100..=999 => "<1k", 1000..=9999 => "<10k", _ => ">=10k" }));
+        rep.case(
             &format!("{} {} {} len={} prefixes={}", scheme, what, cname, bytes.len(), tried),
             if bytes.len() > 8 { Some(format!("{}/{}/{}/{}", scheme, what.split('#').next().unwrap_or(what), cname, bytes.len())) } else { None },
         );
@@ -456,27 +456,27 @@ where
         };
         // ---- byte-level checks of every artefact ----
         let b_pp = layout_any(ctx, schemas, &id, &inst.pp as &dyn Any);
-        let _pp2 = artefact(ctx, &mut rng, &id, S::NAME, "universal-params", &inst.pp, &b_pp);
+        let _pp2 = artefact(&mut ctx.rep, &mut rng, &id, S::NAME, "universal-params", &inst.pp, &b_pp);
         let b_ck = layout_any(ctx, schemas, &id, &inst.ck as &dyn Any);
-        let ck2 = artefact(ctx, &mut rng, &id, S::NAME, "committer-key", &inst.ck, &b_ck);
+        let ck2 = artefact(&mut ctx.rep, &mut rng, &id, S::NAME, "committer-key", &inst.ck, &b_ck);
         let b_vk = layout_any(ctx, schemas, &id, &inst.vk as &dyn Any);
-        let vk2 = artefact(ctx, &mut rng, &id, S::NAME, "verifier-key", &inst.vk, &b_vk);
+        let vk2 = artefact(&mut ctx.rep, &mut rng, &id, S::NAME, "verifier-key", &inst.vk, &b_vk);
         let mut comms_cv: Vec<Comm<S>> = vec![];
         let mut comms_un: Vec<Comm<S>> = vec![];
         for (j, c) in inst.comms.iter().enumerate() {
-            let cp = artefact(ctx, &mut rng, &id, S::NAME, &format!("commitment#{}", j), c.commitment(), &NOB);
+            let cp = artefact(&mut ctx.rep, &mut rng, &id, S::NAME, &format!("commitment#{}", j), c.commitment(), &NOB);
             if let Some(c) = cp.cv { comms_cv.push(c) }
             if let Some(c) = cp.un { comms_un.push(c) }
         }
         let mut states_cv: Vec<State<S>> = vec![];
         for (j, st) in inst.states.iter().enumerate() {
-            let cp = artefact(ctx, &mut rng, &id, S::NAME, &format!("commitment-state#{}", j), st, &NOB);
+            let cp = artefact(&mut ctx.rep, &mut rng, &id, S::NAME, &format!("commitment-state#{}", j), st, &NOB);
             if let Some(s) = cp.cv { states_cv.push(s) }
         }
-        let proof2 = artefact(ctx, &mut rng, &id, S::NAME, "batch-proof", &proof, &NOB);
+        let proof2 = artefact(&mut ctx.rep, &mut rng, &id, S::NAME, "batch-proof", &proof, &NOB);
         let singles: Vec<SProof<S>> = proof.clone().into();
         for (j, p) in singles.iter().enumerate().take(2) {
-            let _ = artefact(ctx, &mut rng, &id, S::NAME, &format!("proof#{}", j), p, &NOB);
+            let _ = artefact(&mut ctx.rep, &mut rng, &id, S::NAME, &format!("proof#{}", j), p, &NOB);
         }
         // ---- decisions with the deserialized copies ----
         let keys: Vec<(String, Pt<S>)> = ev.keys().cloned().collect();
@@ -604,7 +604,7 @@ where
             return;
         }
     };
-    let copies = artefact(ctx, rng, id, S::NAME, "combination-proof", &proof, &NOB);
+    let copies = artefact(&mut ctx.rep, rng, id, S::NAME, "combination-proof", &proof, &NOB);
     let vrng = rng.clone();
     let decide = |vk: &VK<S>, e: &Evaluations<Pt<S>, Fr>, p: &BatchLCProof<Fr, BProof<S>>| -> Outcome {
         let mut sp = generic::fresh_sponge();
@@ -646,19 +646,19 @@ fn kzg_run(ctx: &mut Ctx, schemas: &[SchemaTxt], n: usize) {
         let with_g2 = i % 2 == 0;
         let pp = t.trap.params(with_g2);
         let b = layout_any(ctx, schemas, &id, &pp as &dyn Any);
-        let _ = artefact(ctx, &mut rng, &id, "kzg10", if with_g2 { "universal-params+g2powers" } else { "universal-params" }, &pp, &b);
+        let _ = artefact(&mut ctx.rep, &mut rng, &id, "kzg10", if with_g2 { "universal-params+g2powers" } else { "universal-params" }, &pp, &b);
         if let Ok(Ok(lib_pp)) = guarded(|| kzg::Kzg::setup(range(&mut rng.clone(), 1, 12), !with_g2, &mut rng)) {
             let lid = format!("{}/setup", id);
             let b = layout_any(ctx, schemas, &lid, &lib_pp as &dyn Any);
-            let _ = artefact(ctx, &mut rng, &lid, "kzg10", "universal-params(setup)", &lib_pp, &b);
+            let _ = artefact(&mut ctx.rep, &mut rng, &lid, "kzg10", "universal-params(setup)", &lib_pp, &b);
         }
         let b = layout_any(ctx, schemas, &id, &t.powers as &dyn Any);
-        let powers2 = artefact(ctx, &mut rng, &id, "kzg10", "powers", &t.powers, &b);
+        let powers2 = artefact(&mut ctx.rep, &mut rng, &id, "kzg10", "powers", &t.powers, &b);
         let b = layout_any(ctx, schemas, &id, &t.vk as &dyn Any);
-        let vk2 = artefact(ctx, &mut rng, &id, "kzg10", "verifier-key", &t.vk, &b);
-        let comm2 = artefact(ctx, &mut rng, &id, "kzg10", "commitment", &t.comm, &NOB);
-        let rand2 = artefact(ctx, &mut rng, &id, "kzg10", "commitment-state", &t.rand, &NOB);
-        let proof2 = artefact(ctx, &mut rng, &id, "kzg10", "proof", &t.proof, &NOB);
+        let vk2 = artefact(&mut ctx.rep, &mut rng, &id, "kzg10", "verifier-key", &t.vk, &b);
+        let comm2 = artefact(&mut ctx.rep, &mut rng, &id, "kzg10", "commitment", &t.comm, &NOB);
+        let rand2 = artefact(&mut ctx.rep, &mut rng, &id, "kzg10", "commitment-state", &t.rand, &NOB);
+        let proof2 = artefact(&mut ctx.rep, &mut rng, &id, "kzg10", "proof", &t.proof, &NOB);
         let bad = t.v + rand_nonzero(&mut rng);
         let o_h = kzg::accepted(&kzg::check_impl(&t.vk, &t.comm, t.z, t.v, &t.proof));
         let o_b = kzg::accepted(&kzg::check_impl(&t.vk, &t.comm, t.z, bad, &t.proof));
@@ -734,11 +734,11 @@ fn mlpc_run(ctx: &mut Ctx, n: usize) {
                 continue;
             }
         };
-        let _ = artefact(ctx, &mut rng, &id, "multilinear_pc", "universal-params", &pp, &NOB);
-        let ck2 = artefact(ctx, &mut rng, &id, "multilinear_pc", "committer-key", &ck, &NOB);
-        let vk2 = artefact(ctx, &mut rng, &id, "multilinear_pc", "verifier-key", &vk, &NOB);
-        let comm2 = artefact(ctx, &mut rng, &id, "multilinear_pc", "commitment", &comm, &NOB);
-        let proof2 = artefact(ctx, &mut rng, &id, "multilinear_pc", "proof", &proof, &NOB);
+        let _ = artefact(&mut ctx.rep, &mut rng, &id, "multilinear_pc", "universal-params", &pp, &NOB);
+        let ck2 = artefact(&mut ctx.rep, &mut rng, &id, "multilinear_pc", "committer-key", &ck, &NOB);
+        let vk2 = artefact(&mut ctx.rep, &mut rng, &id, "multilinear_pc", "verifier-key", &vk, &NOB);
+        let comm2 = artefact(&mut ctx.rep, &mut rng, &id, "multilinear_pc", "commitment", &comm, &NOB);
+        let proof2 = artefact(&mut ctx.rep, &mut rng, &id, "multilinear_pc", "proof", &proof, &NOB);
         let bad = v + rand_nonzero(&mut rng);
         let chk = |vk: &multilinear_pc::data_structures::VerifierKey<Bls12_381>,
                    c: &multilinear_pc::data_structures::Commitment<Bls12_381>,
@@ -787,7 +787,53 @@ fn mlpc_run(ctx: &mut Ctx, n: usize) {
     }
 }
 
+// ------------------------------------------------------------------------------------------------
+// self-test of the byte-level checks: a deliberately broken codec must be flagged on a scratch report
+// ------------------------------------------------------------------------------------------------
+struct Leaky(u64, u64);
+impl CanonicalSerialize for Leaky {
+    fn serialize_with_mode<W: ark_serialize::Write>(&self, mut w: W, c: Compress) -> Result<(), ark_serialize::SerializationError> {
+        self.0.serialize_with_mode(&mut w, c)?;
+        self.1.serialize_with_mode(&mut w, c)
+    }
+    fn serialized_size(&self, _: Compress) -> usize {
+        15 // wrong on purpose
+    }
+}
+impl ark_serialize::Valid for Leaky {
+    fn check(&self) -> Result<(), ark_serialize::SerializationError> {
+        Ok(())
+    }
+}
+impl CanonicalDeserialize for Leaky {
+    fn deserialize_with_mode<R: ark_serialize::Read>(mut r: R, c: Compress, v: Validate) -> Result<Self, ark_serialize::SerializationError> {
+        let a = u64::deserialize_with_mode(&mut r, c, v)?;
+        // swallows a truncated second field, and forgets it when re-serializing
+        let b = u64::deserialize_with_mode(&mut r, c, v).unwrap_or(0);
+        Ok(Leaky(a, b / 2))
+    }
+}
+
+fn self_test(ctx: &mut Ctx) {
+    let mut scratch = Report::new("C12-selftest");
+    let mut rng = rng_for(ctx.seed, "C12/selftest", 0);
+    let _ = artefact(&mut scratch, &mut rng, "C12/selftest", "selftest", "leaky", &Leaky(7, 9), &NOB);
+    let sigs: Vec<String> = scratch.expectation_failures.iter().map(|f| f.signature.clone()).collect();
+    for need in ["size-mismatch", "reserialization-differs", "prefix-parsed"] {
+        if !sigs.iter().any(|s| s.ends_with(need)) {
+            ctx.rep.model_disagreements.push(Failure {
+                case_id: "C12/selftest".into(),
+                signature: "harness-selftest".into(),
+                what: format!("the byte-level checks did not flag `{}` on a deliberately broken codec (flagged: {:?})", need, sigs),
+                replay: "# props_c12.rs self_test: Leaky(7, 9)\n".into(),
+            });
+        }
+    }
+    ctx.rep.count("selftest/broken-codec-flagged");
+}
+
 pub fn run(ctx: &mut Ctx) {
+    self_test(ctx);
     let schemas = load_schemas(ctx);
     let n = ctx.n(3, 20);
     kzg_run(ctx, &schemas, ctx.n(4, 30));
